@@ -266,6 +266,10 @@ class MotionCommander:
         distance = math.sqrt(distance_x_m * distance_x_m +
                              distance_y_m * distance_y_m +
                              distance_z_m * distance_z_m)
+        if distance == 0.0:
+            # Nothing to do, and no direction to move in
+            return
+
         flight_time = distance / velocity
 
         velocity_x = velocity * distance_x_m / distance
